@@ -7,6 +7,7 @@ import (
 	"strconv"
 	"sync"
 	"testing"
+	"time"
 )
 
 // TestVerifC09Race: the probe results of several targets of one balancer are
@@ -64,7 +65,16 @@ func TestVerifC09Race(t *testing.T) {
 				}
 			}(tg, outcomes[i])
 		}
-		close(start)
+		if round%4 == 3 {
+			// the balancer's lock is busy (a claim or another rebuild in progress) while the results arrive: the rebuilds
+			// they call for must wait for it, not be given up
+			lb.lock.Lock()
+			close(start)
+			time.Sleep(2 * time.Millisecond)
+			lb.lock.Unlock()
+		} else {
+			close(start)
+		}
 		wg.Wait()
 		want, got := []string{}, []string{}
 		for _, tg := range tl {
